@@ -26,6 +26,8 @@ pub fn record(args: &[String]) {
 	let steps: u64 = arg(args, 1, "steps");
 	let mut tw = TraceWriter::create(&args[2]);
 	let small = args.get(3).map(String::as_str) == Some("small");
+	// optional: only this subject (development aid; the rng stream of the others is still consumed so that seeds stay comparable)
+	let only = args.get(4).map(String::as_str);
 	let mut rng = Rng::new(seed ^ 0x50a4);
 	for subject in FIR.iter().chain(IIR.iter()) {
 		for &n in &[2u64, 3, 10, 50] {
@@ -34,6 +36,9 @@ pub fn record(args: &[String]) {
 			}
 			let p = json!([n]);
 			let mut g = Gen::new(rng.u64(), false);
+			if only.is_some_and(|o| o != *subject) {
+				continue;
+			}
 			let first = g.input('s');
 			let Ok(Ok(mut m)) = build(subject, &p, &first) else { continue };
 			let k = depth(subject, n) as usize;
